@@ -850,3 +850,6 @@ UNIT_META["U54"] = {"functions": ["column::HashColumn::{write_plan,write_plan_ex
 for _p in ("C14", "C09", "C01", "C06"):
     PROPS[_p]["kani_units"] = list(PROPS[_p]["kani_units"]) + ["U54"]
 PROPS["C14"]["claim"] = PROPS["C14"]["claim"] + " An overwrite that moves a value to another slot leaves the key indexed at the new address even when the chunk of the current index is full: the index grows until an insert is accepted (Kani, bounded: at most two 'chunk full' answers)."
+
+# ---------------------------------------------------------------- U16b (known finding: migration misses keys that live in a queued index)
+M_COLUMN.harnesses.append(H("u16b_index_walk_reaches_queued_index_tables", "U16", kind="bounded", shape="HashColumn::iter_index_internal on a column with two older index tables queued for migration; last chunk of the current index", bound="one chunk of the current index; IndexTable::entries by contract (empty pages)"))
